@@ -128,7 +128,7 @@ Proof.
   rewrite ew_sum_l, (ew_addc w W0). rewrite <- Dj, <- Hd. cbn [map ArrayCore.sum]. apply eq_feq. ring.
 Qed.
 
-(* an index congruent to no position of the array: the constraints of the read admit NO satisfying assignment *)
+(* an index congruent to no position of the array: the constraints of the read have NO satisfying assignment *)
 Lemma arr_get1_oob_s (l : list (slc + Z)) x s (Q : pyval -> gst -> Prop) : Gok s -> Oone s -> l <> [] -> Z.of_nat (length l) <= p ->
   (forall j, (j < length l)%nat -> ~ ew x == Z.of_nat j) -> wps (arr_get1 c (map inj l) (PLC x)) s Q.
 Proof.
